@@ -132,7 +132,15 @@ def summands(t):
 
 def spec_scale(t, env, V):
     """sum of the absolute values of the top-level summands: the scale errors are measured against"""
-    return mp.fsum(abs(spec_eval(a, env, V)) for a in summands(t))
+    k = t[0]
+    if k == '+':
+        return mp.fsum(spec_scale(a, env, V) for a in t[1:])
+    if k == '*':
+        # a factor applied to a sum: the summands inside may cancel, the error of each is still relative to its own size
+        return mp.fprod(spec_scale(a, env, V) for a in t[1:])
+    if k == '/':
+        return spec_scale(t[1], env, V) / abs(spec_eval(t[2], env, V))
+    return abs(spec_eval(t, env, V))
 
 
 # ================================================================================================
@@ -168,12 +176,15 @@ def document(case):
     vs += ['<variable name="%s" units="dimensionless"/>' % n for n in names[1:]]
     eqs = ['<apply><eq/><apply><diff/><bvar><ci>t</ci></bvar><ci>V</ci></apply>%s</apply>'
            % mathml(['neg', ['+'] + [['v', e['name']] for e in case['eqs']] + [['n', '0']]])]
+    defs = []
     for n in sorted(case['consts']):
-        eqs.append('<apply><eq/><ci>%s</ci>%s</apply>' % (n, mathml(['n', case['consts'][n]])))
+        defs.append('<apply><eq/><ci>%s</ci>%s</apply>' % (n, mathml(['n', case['consts'][n]])))
     for n in sorted(case['inter']):
-        eqs.append('<apply><eq/><ci>%s</ci>%s</apply>' % (n, mathml(case['inter'][n])))
-    for e in case['eqs']:
-        eqs.append('<apply><eq/><ci>%s</ci>%s</apply>' % (e['name'], mathml(e['ast'])))
+        defs.append('<apply><eq/><ci>%s</ci>%s</apply>' % (n, mathml(case['inter'][n])))
+    uses = ['<apply><eq/><ci>%s</ci>%s</apply>' % (e['name'], mathml(e['ast'])) for e in case['eqs']]
+    # 'late_defs': the equations are listed before the definitions of the constants / helper variables they use (legal:
+    # the order of equations in a document carries no meaning)
+    eqs += (uses + defs[::-1]) if case.get('late_defs') else (defs + uses)
     return ('<?xml version="1.0"?><model name="m" xmlns="http://www.cellml.org/cellml/1.0#" '
             'xmlns:cellml="http://www.cellml.org/cellml/1.0#"><component name="c">' + ''.join(vs)
             + '<math xmlns="http://www.w3.org/1998/Math/MathML">' + ''.join(eqs) + '</math></component></model>')
@@ -583,7 +594,7 @@ def points_for(terms):
 def gen_equation(r, case, idx):
     name = 'i%d' % idx
     shape = r.choice(['outer', 'outer', 'plain', 'additive', 'additiveV', 'factorV', 'prod_same', 'prod_diff',
-                      'sum_same', 'sum_diff', 'nopattern', 'nopattern', 'excluded', 'pwouter'])
+                      'sum_same', 'sum_diff', 'nopattern', 'nopattern', 'excluded', 'pwouter', 'outer_sum_same'])
     V = ['v', 'V']
     P = lambda: lit_or_const(r, case, r.choice(['0.32', '3', '-2.1', '120', '0.0005', '-0.08', '7.5']))   # noqa: E731
     kind, merge = 'pattern', None
@@ -629,6 +640,9 @@ def gen_equation(r, case, idx):
             merge = 'same'
         terms.append(t2)
         ast = ['*', g1, g2] if shape.startswith('prod') else ['+', g1, g2]
+        if shape == 'outer_sum_same':
+            # an outer factor / divisor applied to the sum of two terms sharing the singular point
+            ast = ['*', P(), ast] if r.random() < 0.5 else ['+', ['/', ast, P()], P()]
     if shape == 'excluded':
         kind = 'excluded'
         case['exclude'].append(name)
@@ -650,7 +664,7 @@ def gen_term_with_sp(r, case, t1):
 
 def gen_model_case(seed, neq):
     r = random.Random(seed)
-    case = {'kind': 'model', 'seed': seed, 'consts': {}, 'inter': {}, 'eqs': [], 'exclude': []}
+    case = {'kind': 'model', 'seed': seed, 'consts': {}, 'inter': {}, 'eqs': [], 'exclude': [], 'late_defs': r.random() < 0.35}
     for i in range(neq):
         case['eqs'].append(gen_equation(r, case, i))
     if r.random() < 0.3:
